@@ -1,55 +1,56 @@
 (* Props/C06_tcpascii.v — C06 (framing is independent of the chunking), half for the socket
    and ASCII framers.  [feed recv s chunks] = (final state, all deliveries, true iff no call
    raised or ran out of fuel).  Frames, chunk lists and the decoder are universally
-   quantified; empty chunks are ordinary elements of the list. *)
+   quantified; empty chunks are ordinary elements of the list.
+   [stream_frame k dec c f]: f is well-formed and, IF its unit is accepted by the filter c, its
+   PDU is decodable — so a stream may mix frames for served and for foreign units;
+   [ref_deliveries k c frames] = the frames of the accepted units, in order (one-frame-per-read
+   reference of the property). *)
 From PM.theories Require Import Base Expr Struct FrBaseA Lrc FrTcp FrAscii FrSpecA.
 From PM.Generated Require Import GenFramerA.
 From PM.proofs Require Import FrA_tcp_proofs FrA_ascii_proofs.
 Open Scope list_scope.
 Open Scope Z_scope.
 
-(* ASCII: for every stream of valid frames and EVERY division of it into reads, exactly the
-   frames are delivered, in order, and no call raises *)
+(* ASCII: for every stream of frames and EVERY division of it into reads, exactly the frames of
+   the accepted units are delivered, in order, and no call raises *)
 Theorem C06_ascii : forall (dec : bytes -> dres) (c : cfg) (frames : list frame) (chunks : list bytes),
-  Forall (valid_frame KAscii dec c) frames ->
+  Forall (stream_frame KAscii dec c) frames ->
   concat chunks = concat (map (spec_adu KAscii) frames) ->
   exists s', feed (a_recv base lrc ascii dec c) (a_init ascii) chunks
-             = (s', map (spec_delivery KAscii) frames, true).
+             = (s', ref_deliveries KAscii c frames, true).
 Proof. exact ascii_chunking. Qed.
 Print Assumptions C06_ascii.
 
-(* TCP: the full statement is refuted by the code as it is (open finding
-   F-C06-tcp-short-buffer-error-path) ... *)
-Definition C06_tcp_full_statement : Prop :=
-  forall (dec : bytes -> dres) (c : cfg) (frames : list frame) (chunks : list bytes),
-  Forall (valid_frame KTcp dec c) frames ->
+(* TCP: the FULL statement (no hypothesis on the cut points) — holds since the socket framer waits
+   for a complete MBAP header (repair 9) and skips foreign-unit frames with advanceFrame (repair 11) *)
+Theorem C06_tcp : forall (dec : bytes -> dres) (c : cfg) (frames : list frame) (chunks : list bytes),
+  Forall (stream_frame KTcp dec c) frames ->
   concat chunks = concat (map (spec_adu KTcp) frames) ->
-  exists s', feed (t_recv base tcp dec c) (t_init tcp) chunks = (s', map (spec_delivery KTcp) frames, true).
-
-Theorem C06_tcp_refuted : exists dec c f chunks,
-  valid_frame KTcp dec c f /\ concat chunks = spec_adu KTcp f /\
-  snd (feed (t_recv base tcp dec c) (t_init tcp) chunks) = false.
-Proof.
-  exists tcp_refute_dec, tcp_refute_cfg, tcp_refute_frame, tcp_refute_chunks. exact tcp_refuted.
-Qed.
-Print Assumptions C06_tcp_refuted.
-
-(* ... and holds under exactly the hypothesis that delimits the defect: no read ends 1..7 bytes
-   into a frame ([cut_inside adus n k]: stream position n lies k bytes inside a frame) *)
-Theorem C06_tcp_partial : forall (dec : bytes -> dres) (c : cfg) (frames : list frame) (chunks : list bytes),
-  Forall (valid_frame KTcp dec c) frames ->
-  concat chunks = concat (map (spec_adu KTcp) frames) ->
-  (forall cs1 cs2 k, chunks = cs1 ++ cs2 ->
-     cut_inside (map (spec_adu KTcp) frames) (length (concat cs1)) k -> (8 <= k)%nat) ->
-  exists s', feed (t_recv base tcp dec c) (t_init tcp) chunks = (s', map (spec_delivery KTcp) frames, true).
+  exists s', feed (t_recv base tcp dec c) (t_init tcp) chunks = (s', ref_deliveries KTcp c frames, true).
 Proof. exact tcp_chunking. Qed.
-Print Assumptions C06_tcp_partial.
+Print Assumptions C06_tcp.
 
-(* the hypotheses are satisfiable: a frame cut 9 bytes in *)
+(* the witness that used to refute the TCP statement (a read ending 7 bytes into a frame) now passes *)
+Theorem C06_tcp_fixed_witness :
+  feed (t_recv base tcp tcp_refute_dec tcp_refute_cfg) (t_init tcp) tcp_refute_chunks =
+  (t_init tcp, [spec_delivery KTcp tcp_refute_frame], true).
+Proof. exact tcp_old_witness_passes. Qed.
+Print Assumptions C06_tcp_fixed_witness.
+
+(* the hypotheses are satisfiable: a served frame, a foreign-unit frame with an undecodable PDU and
+   another served frame, cut 3 bytes into the first header, with an empty read, and inside the third *)
 Example C06_nonvacuous :
-  let f := {| f_tid := 1; f_pid := 0; f_uid := 1; f_pdu := [3%N; 0%N; 0%N; 0%N; 1%N] |} in
+  let f1 := {| f_tid := 1; f_pid := 0; f_uid := 1; f_pdu := [3%N; 0%N; 0%N; 0%N; 1%N] |} in
+  let f2 := {| f_tid := 2; f_pid := 0; f_uid := 9; f_pdu := [99%N] |} in
+  let f3 := {| f_tid := 3; f_pid := 0; f_uid := 1; f_pdu := [3%N; 0%N; 0%N; 0%N; 2%N] |} in
   let c := {| c_units := [1]; c_single := None |} in
-  let chunks := [firstn 9 (spec_adu KTcp f); []; skipn 9 (spec_adu KTcp f)] in
-  valid_frame KTcp (fun _ => DMsg 3) c f /\
-  feed (t_recv base tcp (fun _ => DMsg 3) c) (t_init tcp) chunks = (t_init tcp, [spec_delivery KTcp f], true).
-Proof. split; [repeat split; cbn; lia|vm_compute; reflexivity]. Qed.
+  let dec := fun p : bytes => match p with [99%N] => DNone | _ => DMsg 3 end in
+  let s := spec_adu KTcp f1 ++ spec_adu KTcp f2 ++ spec_adu KTcp f3 in
+  Forall (stream_frame KTcp dec c) [f1; f2; f3] /\
+  feed (t_recv base tcp dec c) (t_init tcp) [firstn 3 s; []; firstn 22 (skipn 3 s); skipn 25 s]
+    = (t_init tcp, [spec_delivery KTcp f1; spec_delivery KTcp f3], true).
+Proof.
+  split; [|vm_compute; reflexivity].
+  repeat constructor; cbn; try lia; try discriminate; reflexivity.
+Qed.
